@@ -2,3 +2,6 @@ import BB
 #print axioms BB.Props.Tables.instrTable_matches
 #print axioms BB.Props.Tables.registers_str_match
 #print axioms BB.Props.Tables.registers_int_match
+#print axioms BB.Props.C01.enc32_sound
+#print axioms BB.Props.C01.encode32_sound
+#print axioms BB.Props.C01.enc32_inj
